@@ -1,6 +1,7 @@
 import VermouthProofs.C14
 import VermouthProofs.C14_Groups
 import VermouthProofs.C14_Fix
+import VermouthProofs.C14_Loop
 import VermouthProofs.Iso
 /-!
 # C14 — every unrecognised atom is explained by a known modification or reported
@@ -322,6 +323,237 @@ theorem removal_is_reported (m : Mol) (mods : List Modif) (given : List (List (L
   obtain ⟨s, hs, _, hk, hr⟩ := label_or_remove_partial mods m.atoms (iterations m)
     { mol := m, removed := [], warnings := [], log := [] } given
   exact ⟨s, hs, hk, hr⟩
+
+/-! ## the whole loop of fix_ptm -/
+
+/-- the nodes of the residues of a key (`n_idxs`) -/
+def nIdxsOf (orig : List Atom) (key : List Int) : List Int :=
+  (orig.filter fun a => key.contains a.resid).map (·.key)
+
+/-- the `annotated` snapshot: the `modifications` an atom carried in the input -/
+def annotOf (orig : List Atom) : Int → List Nat :=
+  fun k => ((orig.find? fun a => a.key == k).map (·.mods)).getD []
+
+/-- what the property demands of an initially flagged atom `a` in the final state `s`: it is absent
+and named in a warning, or it is present, lies in exactly one placement chosen by a cover search of
+the whole run (`countIn`), and every surviving atom of the residues of that iteration's key lists
+the modification of every placement chosen in that iteration. -/
+def Explained (orig : List Atom) (a : Int) (s : St) : Prop :=
+  (a ∉ s.mol.keys ∧ ∃ w ∈ s.warnings, a ∈ w)
+  ∨ (a ∈ s.mol.keys ∧ countIn s.log a = 1 ∧
+      ∃ l ∈ s.log, ∃ used cov, l.result = some (used, cov) ∧ (∃ e ∈ cov, a ∈ patoms e.2)
+        ∧ ∀ b ∈ s.mol.atoms, b.key ∈ nIdxsOf orig l.key → ∀ e ∈ used ++ cov, e.1 ∈ b.mods)
+
+theorem runIters_own (mods : List Modif) (orig : List Atom) (horig : (orig.map (·.key)).Nodup)
+    {a0 : Atom} (ha0 : a0 ∈ orig) (hp : a0.ptm = true) :
+    ∀ (its : List (List Int × List Group)) (s : St) (given : List (List (List Placement))),
+      Inv orig s → a0.key ∈ s.mol.keys → countIn s.log a0.key = 0 →
+      (atomsOf (its.flatMap (·.2))).Nodup →
+      (∀ it ∈ its, ∀ g ∈ it.2, a0.key ∉ g.anchors) →
+      (∃ it ∈ its, ∃ g ∈ it.2, usedOf (annotOf orig) g = [] ∧ a0.key ∈ g.atoms) →
+      ∃ s' : St, runIters mods orig s its given = .done s' ∧ Explained orig a0.key s' := by
+  intro its
+  induction its with
+  | nil =>
+    intro s given _ _ _ _ _ hex
+    obtain ⟨it, hit, _⟩ := hex
+    simp at hit
+  | cons it its ih =>
+    intro s given hinv hin hcnt hnd hanch hex
+    obtain ⟨key, groups⟩ := it
+    have hsplit : atomsOf (((key, groups) :: its).flatMap (·.2)) = atomsOf groups ++ atomsOf (its.flatMap (·.2)) := by
+      unfold atomsOf
+      rw [List.flatMap_cons, List.flatMap_append]
+    rw [hsplit, List.nodup_append] at hnd
+    obtain ⟨_, hnd2, hdisj⟩ := hnd
+    have mem_atomsOf : ∀ {gs : List Group} {g : Group} {x : Int}, g ∈ gs → x ∈ g.atoms → x ∈ atomsOf gs := by
+      intro gs g x hg hx
+      exact List.mem_flatMap.2 ⟨g, hg, hx⟩
+    have not_allOf : ∀ (gs : List Group), a0.key ∉ atomsOf gs → (∀ g ∈ gs, a0.key ∉ g.anchors) → a0.key ∉ allOf gs := by
+      intro gs h1 h2 h
+      obtain ⟨g, hg, hx⟩ := List.mem_flatMap.1 h
+      rcases List.mem_append.1 hx with h3 | h3
+      · exact h1 (mem_atomsOf hg h3)
+      · exact h2 g hg h3
+    obtain ⟨s1, hs1, hinv1, hl1, hframe⟩ := step_frame mods orig s key groups (given.headD []) hinv
+    by_cases hown : ∃ g ∈ groups, usedOf (annotOf orig) g = [] ∧ a0.key ∈ g.atoms
+    · -- the iteration of `a0`
+      obtain ⟨g0, hg0, hu0, hag0⟩ := hown
+      have hrest : ∀ it ∈ its, a0.key ∉ allOf it.2 := by
+        intro it hit
+        apply not_allOf
+        · intro h
+          have h1 : a0.key ∈ atomsOf (its.flatMap (·.2)) := by
+            obtain ⟨g, hg, hx⟩ := List.mem_flatMap.1 h
+            exact List.mem_flatMap.2 ⟨g, List.mem_flatMap.2 ⟨it, hit, hg⟩, hx⟩
+          exact hdisj _ (mem_atomsOf hg0 hag0) _ h1 rfl
+        · exact fun g hg => hanch it (by simp [hit]) g hg
+      obtain ⟨s2, hs2, _, hl2, hk2, hc2⟩ := runIters_other mods orig horig ha0 hp its s1 given.tail hinv1 hrest
+      refine ⟨s2, by simp only [runIters, hs1, hs2], ?_⟩
+      obtain ⟨s1', hs1', hcase⟩ := step_label_or_remove mods orig s key groups (given.headD [])
+      rw [hs1] at hs1'
+      cases hs1'
+      rcases hcase with ⟨rm, l, hw, _, _, _, hkeys, hall⟩ | ⟨used, cov, l, _, _, hlog, hres, hkeys, _, hone, hlab⟩
+      · left
+        have harm : a0.key ∈ rm := hall g0 hg0 hu0 _ hag0
+        refine ⟨?_, rm, hl2.warns rm (by rw [hw]; simp), harm⟩
+        rw [hk2, hkeys]
+        exact fun h => h.2 harm
+      · right
+        have hnp := flagged_not_nonPtm horig hinv ha0 hp
+          (fun a => ((orig.filter fun a => key.contains a.resid).map (·.key)).contains a.key)
+        have h1 : cov.countP (fun e => (patoms e.2).contains a0.key) = 1 := hone g0 hg0 hu0 _ hag0 hnp
+        have hlkey : l.key = key := by
+          rcases hframe with ⟨_, l', hlog', _, _⟩ | ⟨_, _, l', hlog', _, hk', _⟩
+          · rw [hlog] at hlog'
+            have := List.append_cancel_left hlog'
+            simp only [List.cons.injEq, and_true] at this
+            subst this
+            simp_all
+          · rw [hlog] at hlog'
+            have := List.append_cancel_left hlog'
+            simp only [List.cons.injEq, and_true] at this
+            subst this
+            exact hk'
+        refine ⟨?_, ?_, l, ?_, used, cov, hres, ?_, ?_⟩
+        · rw [hk2, hkeys]; exact hin
+        · rw [hc2, hlog, countIn_append, countIn_single, coverOf_some hres, hcnt, h1]
+        · obtain ⟨ext, hext⟩ := hl2.log
+          rw [hext, hlog]; simp
+        · have : 0 < cov.countP (fun e => (patoms e.2).contains a0.key) := by omega
+          obtain ⟨e, he, hcon⟩ := List.countP_pos_iff.1 this
+          exact ⟨e, he, by simpa using hcon⟩
+        · intro b hb hbn e he
+          obtain ⟨b1, hb1, hkb, hmb⟩ := hl2.atoms b hb
+          apply hmb
+          apply hlab b1 hb1 _ e he
+          rw [hkb]
+          unfold nIdxsOf at hbn
+          rw [hlkey] at hbn
+          exact hbn
+    · -- another iteration comes first
+      have hex' : ∃ it ∈ its, ∃ g ∈ it.2, usedOf (annotOf orig) g = [] ∧ a0.key ∈ g.atoms := by
+        obtain ⟨it, hit, g, hg, hu, hag⟩ := hex
+        rcases List.mem_cons.1 hit with rfl | hit
+        · exact absurd ⟨g, hg, hu, hag⟩ hown
+        · exact ⟨it, hit, g, hg, hu, hag⟩
+      have hnot : a0.key ∉ allOf groups := by
+        apply not_allOf
+        · intro h
+          obtain ⟨it, hit, g, hg, _, hag⟩ := hex'
+          have h1 : a0.key ∈ atomsOf (its.flatMap (·.2)) :=
+            List.mem_flatMap.2 ⟨g, List.mem_flatMap.2 ⟨it, hit, hg⟩, hag⟩
+          exact hdisj _ h _ h1 rfl
+        · exact fun g hg => hanch (key, groups) (by simp) g hg
+      obtain ⟨s1', hs1', _, _, hk1, hc1⟩ := runIters_other mods orig horig ha0 hp [(key, groups)] s given hinv
+        (by intro it hit; simp at hit; subst hit; exact hnot)
+      simp only [runIters, hs1] at hs1'
+      cases hs1'
+      obtain ⟨s2, hs2, hexp⟩ := ih s1 given.tail hinv1 (hk1.2 hin) (by rw [hc1]; exact hcnt) hnd2
+        (fun it hit => hanch it (by simp [hit])) hex'
+      exact ⟨s2, by simp only [runIters, hs1, hs2], hexp⟩
+
+/-- no anchor of a group is itself an extra atom (decidable; it holds whenever the traversal of
+`find_ptm_atoms` ran to completion, see `anchors_not_extra`) -/
+def AnchorsNotExtra (m : Mol) : Prop := ∀ g ∈ findPtmGroups m, ∀ x ∈ g.2, x ∉ m.extra
+
+instance (m : Mol) : Decidable (AnchorsNotExtra m) := by unfold AnchorsNotExtra; infer_instance
+
+theorem dedupNat_eq_nil {l : List Nat} (h : dedupNat l = []) : l = [] := by
+  cases l with
+  | nil => rfl
+  | cons a l => simp [dedupNat] at h
+
+theorem annotOf_eq (orig : List Atom) (horig : (orig.map (·.key)).Nodup) {a0 : Atom} (ha0 : a0 ∈ orig) :
+    annotOf orig a0.key = a0.mods := by
+  unfold annotOf
+  cases hf : orig.find? (fun a => a.key == a0.key) with
+  | none =>
+    have := List.find?_eq_none.1 hf a0 ha0
+    simp at this
+  | some x =>
+    have hx : x ∈ orig := List.mem_of_find?_eq_some hf
+    have hkx : x.key = a0.key := by simpa using List.find?_some hf
+    have : x = a0 := eq_of_key_eq horig hx ha0 hkx
+    simp [this]
+
+/-- `label_or_remove` — the whole loop of `fix_ptm`.  `fix_ptm` returns, and every atom of every
+group that carries no annotation from the input (the ordinary case; all such atoms are flagged
+`PTM_atom`) is, in the final molecule, either absent and named in an unknown-input warning, or present,
+in exactly one placement chosen by a cover search over the whole run (so never covered twice, never
+left uncovered), with the modifications of all placements of that iteration listed in the
+`modifications` of every surviving atom of the residues of the iteration's key.  (The chosen
+placement is a candidate of its fragment by `identify_spec`/`cover_sound`, i.e. induced, anchors by name,
+PTM atoms by element when the candidates pass `candsOk`; the renaming is `rename_spec`.) -/
+theorem label_or_remove (m : Mol) (mods : List Modif) (given : List (List (List Placement)))
+    (hk : m.keys.Nodup) (hanch : AnchorsNotExtra m) :
+    ∃ s, fixPtm m mods given = .done s ∧
+      ∀ g ∈ groupsOf m, usedOf (annotOf m.atoms) g = [] → ∀ a ∈ g.atoms, Explained m.atoms a s := by
+  obtain ⟨s, hs, _, _⟩ := removal_is_reported m mods given
+  refine ⟨s, hs, ?_⟩
+  intro g hg hu a hag
+  obtain ⟨hperm, hnd, hiff, _⟩ := groups_partition m hk
+  have hflat : atomsOf (groupsOf m) = (findPtmGroups m).flatMap (·.1) := by
+    unfold atomsOf groupsOf
+    rw [List.flatMap_map]
+  have haex : a ∈ m.extra := by
+    rw [hiff a]
+    obtain ⟨g', hg', rfl⟩ := List.mem_map.1 hg
+    exact ⟨g', hg', hag⟩
+  obtain ⟨a0, ha0f, rfl⟩ := List.mem_map.1 haex
+  obtain ⟨ha0, hex0⟩ := List.mem_filter.1 ha0f
+  have hmods : a0.mods = [] := by
+    have h1 := dedupNat_eq_nil hu
+    rw [List.flatMap_eq_nil_iff] at h1
+    have := h1 _ hag
+    rwa [annotOf_eq m.atoms hk ha0] at this
+  have hp : a0.ptm = true := by
+    simp only [isExtra, hmods, List.isEmpty_nil, Bool.not_true, Bool.or_false] at hex0
+    exact hex0
+  have hpermI := iterations_perm m
+  have hnd' : (atomsOf ((iterations m).flatMap (·.2))).Nodup := by
+    have : (atomsOf ((iterations m).flatMap (·.2))).Perm (atomsOf (groupsOf m)) := by
+      unfold atomsOf
+      exact List.Perm.flatMap_right _ hpermI
+    rw [this.nodup_iff, hflat]
+    exact hnd
+  have hanch' : ∀ it ∈ iterations m, ∀ g ∈ it.2, a0.key ∉ g.anchors := by
+    intro it hit g' hg'
+    have : g' ∈ groupsOf m := hpermI.subset (List.mem_flatMap.2 ⟨it, hit, hg'⟩)
+    obtain ⟨g'', hg'', rfl⟩ := List.mem_map.1 this
+    exact fun hx => hanch g'' hg'' _ hx haex
+  have hex : ∃ it ∈ iterations m, ∃ g ∈ it.2, usedOf (annotOf m.atoms) g = [] ∧ a0.key ∈ g.atoms := by
+    obtain ⟨it, hit, hgi⟩ := List.mem_flatMap.1 (hpermI.symm.subset hg)
+    exact ⟨it, hit, g, hgi, hu, hag⟩
+  obtain ⟨s', hs', hexp⟩ := runIters_own mods m.atoms hk ha0 hp (iterations m)
+    { mol := m, removed := [], warnings := [], log := [] } given
+    (List.Sublist.refl _) (List.mem_map.2 ⟨a0, ha0, rfl⟩) rfl hnd' hanch' hex
+  unfold fixPtm at hs
+  rw [hs] at hs'
+  cases hs'
+  exact hexp
+
+/-- the ordinary case spelled out: a molecule without annotations from `modify`; every flagged atom is
+explained -/
+theorem label_or_remove_flagged (m : Mol) (mods : List Modif) (given : List (List (List Placement)))
+    (hk : m.keys.Nodup) (hanch : AnchorsNotExtra m) (hno : ∀ b ∈ m.atoms, b.mods = []) :
+    ∃ s, fixPtm m mods given = .done s ∧
+      ∀ a0 ∈ m.atoms, a0.ptm = true → Explained m.atoms a0.key s := by
+  obtain ⟨s, hs, hall⟩ := label_or_remove m mods given hk hanch
+  refine ⟨s, hs, ?_⟩
+  intro a0 ha0 hp
+  obtain ⟨_, _, hiff, _⟩ := groups_partition m hk
+  obtain ⟨g', hg', hag⟩ := (hiff a0.key).1 (flagged_is_extra m a0 ha0 hp)
+  refine hall ⟨g'.1, g'.2⟩ (List.mem_map.2 ⟨g', hg', rfl⟩) ?_ _ hag
+  unfold usedOf
+  have : (List.flatMap (annotOf m.atoms) g'.1) = [] := by
+    rw [List.flatMap_eq_nil_iff]
+    intro x _
+    unfold annotOf
+    cases hf : m.atoms.find? (fun a => a.key == x) with
+    | none => rfl
+    | some y => simp [hno y (List.mem_of_find?_eq_some hf)]
+  simp [this, dedupNat]
 
 /-! ## witnesses -/
 
